@@ -480,14 +480,19 @@ def check(pid, tier, seed):
         # ordinary cases and judged as such below.
 
         seen_reports = 0
+        internal = []
         for i, cl in enumerate(classes):
             if cl in ('agree', 'known', 'known-holds'):
                 continue
             if cl in ('illformed', 'contradiction'):
                 if origin[i] == 'gen' and getattr(prop, 'MALFORMED_OK', False) and cl == 'illformed':
                     continue
-                raise Internal('%s case from %s: %s (verdict %d)' % (
+                # judged at the end: if the same run exhibits real violations
+                # they are what gets reported (an implementation that breaks a
+                # property can also push generated cases out of the domain)
+                internal.append('%s case from %s: %s (verdict %d)' % (
                     cl, origin[i], json.dumps(cases[i])[:1500], verdicts[i]))
+                continue
             if seen_reports >= 3:
                 continue
             seen_reports += 1
@@ -510,6 +515,23 @@ def check(pid, tier, seed):
             path = write_replay(pid, small, tr, v, extra)
             tail = '' if found is not None else ' no-failing-input-found'
             out_lines.append('VIOLATION property=%s replay=%s%s' % (pid, path, tail))
+            violations.append(path)
+
+        if internal and not violations:
+            bad = [i for i, cl in enumerate(classes) if cl == 'contradiction' or
+                   (cl == 'illformed' and origin[i] != 'gen')]
+            if bad:
+                raise Internal(internal[0])
+            # Generated cases are well-formed by construction (checked on every
+            # run of the unchanged tree); wf_b may read observations, so an
+            # ill-formed verdict means the implementation's behaviour pushed
+            # the case out of the domain: the correspondence no longer checks.
+            i = [k for k, cl in enumerate(classes) if cl == 'illformed'][0]
+            path = write_replay(pid, cases[i], traces[i], verdicts[i], dict(
+                kind='out-of-domain', origin=origin[i], theorem=prop.THEOREM,
+                failing='%s: the observed trace of a generated (well-formed by '
+                        'construction) case is outside wf_b' % prop.COQ_MODULE))
+            out_lines.append('VIOLATION property=%s replay=%s no-failing-input-found' % (pid, path))
             violations.append(path)
 
         keys = set()
